@@ -4,7 +4,7 @@ EXTENDS Naturals, Sequences, TLC, Json
 
 Formats == {"csv", "json"}
 Targets == {"path", "zip"}
-Counters == {"default", "renamed", "dotted", "nohash", "nobytes", "norows", "nototal", "nestedhash"}
+Counters == {"default", "renamed", "dotted", "nohash", "nobytes", "norows", "nototal", "nestedhash", "hashonly"}
 Incoming == {"fresh", "second_dumper", "redump_loaded", "package_totals", "same_dir_again"}
    \* package_totals: the package descriptor arrives with totals of its own
    \* same_dir_again: the target directory / zip already holds an earlier dump of OTHER rows made with the same options
